@@ -79,7 +79,7 @@ def check_case(ctx, c, nq):
 def apply_op(op, a, b, inplace=False):
     import operator as o_
 
-    f = {"add": (o_.add, o_.iadd), "sub": (o_.sub, o_.isub), "mul": (o_.mul, o_.imul)}[op][1 if inplace else 0]
+    f = {"add": (o_.add, o_.iadd), "sub": (o_.sub, o_.isub), "mul": (o_.mul, o_.imul), "div": (o_.truediv, o_.itruediv)}[op][1 if inplace else 0]
     return f(a, b)
 
 
@@ -95,6 +95,8 @@ def check_chain(ctx, ch):
     for inplace in (False, True):
         x1, y1 = pc.operand_real(c1["x"], 0), pc.operand_real(c1["y"], 1)
         desc1 = "(%s %s%s %s)" % (pc.show(c1["x"]), c1["op"], "=" if inplace else "", pc.show(c1["y"]))
+        d_x1 = pc.dense_real(x1, nq) if pc.kind_of(x1) != "num" else None
+        d_y1 = pc.dense_real(y1, nq) if pc.kind_of(y1) != "num" else None
         try:
             r1 = apply_op(c1["op"], x1, y1, inplace and pc.kind_of(x1) != "num")
             if ch["side"] == "x":
@@ -111,6 +113,12 @@ def check_chain(ctx, ch):
         except Exception as ex:
             out.append(("chain:raised", "%s then %s on the returned object%s raised %s: %s" % (desc1, c2["op"], " (in place)" if inplace else "", type(ex).__name__, str(ex)[:150])))
             continue
+        # the operands of the FIRST operation are still the operators they were (the object the library returned from it may
+        # hold them; whatever is done to that object afterwards, in place or not, is not done to them) - unless the operand is
+        # itself the object that was updated in place
+        for nm, obj, d0 in (("left", x1, d_x1), ("right", y1, d_y1)):
+            if d0 is not None and obj is not r1 and obj is not r2 and not close(pc.dense_real(obj, nq), d0, 1e-12):
+                out.append(("chain:operand-changed" + (":inplace" if inplace else ""), "%s: afterwards the %s operand of the first operation is %r - it no longer denotes the matrix it denoted" % (desc, nm, obj)))
         want = pc.dense_abstract(c2["res"], nq)
         try:
             dr = pc.dense_real(r2, nq)
@@ -162,7 +170,7 @@ def run(ctx):
             for key, msg in check_case(ctx, c, consts["NQ"]):
                 ctx.violation(key, msg, c)
     # chains on one evolving object
-    res = ctx.tlc("Pauli", constants=dict(NQ=2, Pool="<-PoolChain", Ops='{"add","sub","mul"}', Depth=3, ExpandMod=1, Emitting=True), invariants=INV, constraints=["DepthBound", "NoOverflow"], action_constraints=["Emit"], coverage=False, timeout=3000)
+    res = ctx.tlc("Pauli", constants=dict(NQ=2, Pool="<-PoolChain", Ops='{"add","sub","mul","div"}', Depth=3, ExpandMod=1, Emitting=True), invariants=INV, constraints=["DepthBound", "NoOverflow"], action_constraints=["Emit"], coverage=False, timeout=3000)
     first = {}
     allc = res.emitted
     import json as _json
@@ -172,9 +180,21 @@ def run(ctx):
     for c in allc:
         first.setdefault(key(c["res"]), []).append(c)
     chains = []
+    _fc = {}
+
+    def firsts(k_):
+        """the distinct first operations that produce this value, in an order that does not depend on TLC's emission order:
+        those whose LEFT operand is a sum first (the in-place flavours act on an object the sum owns), at most four"""
+        if k_ not in _fc:
+            d = {}
+            for c in first.get(k_, []):
+                d.setdefault(key([c["op"], c["x"], c["y"]]), c)
+            _fc[k_] = [d[q] for q in sorted(d, key=lambda q: (d[q]["x"]["t"] != "sum", d[q]["y"]["t"] == "num", q))][:4]
+        return _fc[k_]
+
     for c2 in allc:
         for side in ("x", "y"):
-            for c1 in first.get(key(c2[side]), [])[:2]:
+            for c1 in firsts(key(c2[side])):
                 if c1 is not c2 and c1["res"]["t"] != "num":
                     chains.append({"k": "chain", "c1": c1, "c2": c2, "side": side, "nq": 2})
     if len(chains) < 500:
